@@ -195,14 +195,17 @@ end
 /-- the semantic certificate modulo bare immediate statements in front of an assignment to the same immediate -/
 def certifiedSemB (prog : List CStmt) : Bool := certifiedSem (dropBare prog)
 
+mutual
 /-- contains a bare value statement `e;` somewhere (top level, `if`/`else` arms, loop bodies) -/
+def hasBareS : CStmt → Bool
+  | .exprstmt _ => true
+  | .ite _ t e => hasBare t || (match e with | some e => hasBare e | none => false)
+  | .for_ _ _ _ b => hasBare b
+  | _ => false
 def hasBare : List CStmt → Bool
   | [] => false
-  | .exprstmt _ :: _ => true
-  | .ite _ t none :: ss => hasBare t || hasBare ss
-  | .ite _ t (some e) :: ss => hasBare t || hasBare e || hasBare ss
-  | .for_ _ _ _ b :: ss => hasBare b || hasBare ss
-  | _ :: ss => hasBare ss
+  | s :: ss => hasBareS s || hasBare ss
+end
 
 /-- The semantic certificate for behaviours with bare PURE value statements (`siV; EA = RsV + siV; …`, the "touch the
     operand" statements most shipped behaviours start with): the conjuncts of `certifiedSem`, whose ingredients accept
@@ -220,10 +223,17 @@ def certifiedSemP (prog : List CStmt) : Bool :=
 
 theorem certifiedSemP_eq (prog : List CStmt) : certifiedSemP prog = certifiedSem prog := rfl
 
-/-- which conjuncts of `certifiedSem` hold (diagnostics for the evidence): ctx ok, WFStmts, WFES, CarveProgSem, HybFreeSs, HSameProg -/
+/-- which conjuncts of `certifiedSem` (= `certifiedSemP`) hold (diagnostics for the evidence): ctx ok, WFStmts, WFES,
+    CarveProgSem, HybFreeSs, HSameProg.  A bare pure value statement `e;` counts under WFES (`e` is among `exprsOf`),
+    CarveProgSem (`CarveESem e`), HybFreeSs (`HybFree e`), HSameProg (`HSame e`). -/
 def certifiedSemDetail (prog : List CStmt) : String :=
   let c := ctxOf prog
   let b := fun (x : Bool) => if x then "1" else "0"
   b c.ok ++ b (WFStmts c prog) ++ b ((exprsOfList prog).all (WFES c)) ++ b (CarveProgSem prog) ++ b (HybFreeSs prog) ++ b (HSameProg Cfg.asCode prog)
+
+/-- the diagnostics the driver reports: of the behaviour itself when its certificate holds, else of the behaviour
+    without the bare immediate reads in front of an assignment to the same immediate (`certifiedSemB`) -/
+def certDetail (prog : List CStmt) : String :=
+  if certifiedSem prog then certifiedSemDetail prog else certifiedSemDetail (dropBare prog)
 
 end Rzil
